@@ -16,7 +16,7 @@ from hypothesis import strategies as st
 from vlib.runner import Clause
 from vlib import gen
 from vlib.tol import close, describe, maxdiff
-from vlib.digest import digest, digest_diff
+from vlib.digest import digest, digest_diff, parameter_mutation
 
 from menpo.model import GMRFModel, GMRFVectorModel
 from menpo.shape import PointCloud, UndirectedGraph, DirectedGraph, Tree
@@ -413,9 +413,9 @@ def check_config(case, ctx):
         )
 
     # inputs unchanged
-    dd = digest_diff(dig_samples, digest(samples))
+    dd = parameter_mutation(dig_samples, digest(samples))
     ctx.expect(dd is None, "inputs.data_changed", lambda: repr(dd))
-    dg = digest_diff(dig_graph, digest(graph))
+    dg = parameter_mutation(dig_graph, digest(graph))
     ctx.expect(dg is None, "inputs.graph_changed", lambda: repr(dg))
 
 
